@@ -142,19 +142,20 @@ theorem fast_path_not_taken {s : S} (hr : ReachIsr s) (hh : s.hung = false) (hpc
 /-- **dispatch_within_runq_passes** — FIFO dispatch, the liveness clause: a fibre at position `i` of the run queue is
     dispatched by one of the next `i + 1` passes of `fibre_scheduler_next` *without any further stimulus* (no interrupt, no
     other call; the passes may be at any times).  `passes ts s` runs one uninterrupted pass per element of `ts`.
-    Holds from every reachable state; the only hypothesis is that the executable runner was not cut for lack of fuel
-    (`hung = false`, an explicit decidable output — every fibre body of the model returns). -/
+    Holds from every reachable state; the hypotheses are that the fibres dispatched meanwhile make no scheduler calls of
+    their own (`bscript = []`: a scripted body's `fibre_kill(f)` would of course remove `f`) and that the executable runner was
+    not cut for lack of fuel (`hung = false`, an explicit decidable output — every fibre body of the model returns). -/
 theorem dispatch_within_runq_passes {s : S} (hr : Reach s) (f : Fid) (i : Nat) (hf : s.k.runq[i]? = some f)
-    (ts : List (BitVec 32)) (hlen : ts.length = i + 1) (hh : (passes ts s).hung = false) :
+    (hbs : s.bscript = []) (ts : List (BitVec 32)) (hlen : ts.length = i + 1) (hh : (passes ts s).hung = false) :
     Tok.disp f ∈ (passes ts s).trace :=
-  fifo_dispatch i s f ts hr hf hlen hh
+  fifo_dispatch i s f ts hr hf hbs hlen hh
 
 /-- one uninterrupted pass dispatches the head of the run queue; the rest of the queue moves up by one and new entries
     join at the tail (the step of the induction above) -/
-theorem pass_dispatches_the_head {s : S} (hr : Reach s) (c : Fid) (r : List Fid) (hrq : s.k.runq = c :: r) (t : BitVec 32)
-    (hh : (callMain noGap (.next t) s).hung = false) :
+theorem pass_dispatches_the_head {s : S} (hr : Reach s) (c : Fid) (r : List Fid) (hrq : s.k.runq = c :: r)
+    (hbs : s.bscript = []) (t : BitVec 32) (hh : (callMain noGap (.next t) s).hung = false) :
     Tok.disp c ∈ (callMain noGap (.next t) s).trace ∧ ∃ l, (callMain noGap (.next t) s).k.runq = r ++ l := by
-  rcases pass_dispatches_head hr c r hrq t with e | ⟨_, _, hd, _, hl⟩
+  rcases pass_dispatches_head hr c r hrq hbs t with e | ⟨_, _, hd, _, hl, _⟩
   · rw [hh] at e; cases e
   · exact ⟨hd, hl⟩
 
@@ -345,7 +346,15 @@ example : (runIsr demoCfg { call := .eventSend 9 }).eq.received < (runIsr demoCf
 
 Scope (`ItemOk`, a decidable predicate on the history): main-context calls with interrupt scripts (any placement, handlers
 nested inside handlers), interrupts between calls and quiescent runs — **no thread-sender items** — whose calls only name
-fibres that exist (`< nf`, the number of fibres the monitor's fairness bound counts).  Thread senders are excluded on purpose:
+fibres that exist (`< nf`, the number of fibres the monitor's fairness bound counts).  A main-context item may carry a
+*scripted body*: the list of `fibre_run(g)` / `fibre_kill(g)` calls that fibres of kind `scripted` make, one after the other,
+while they are being dispatched by that item's pass, and the code they then return (`ItemOk` requires `g < nf`).  These
+nested calls are ordinary main-context steps (`mainPlain` / `mainAtomic` at the control locations `recv/recvd/rel/reld
+(.brun g | .bkill g)`) of `Reach`, `ReachIsr` and `ReachR`: each runs its own `handle_atomic_runq` drain loop, and the
+interrupt script of the item fires at the gaps before and after each of their atomic operations exactly as at the gaps of
+the enclosing pass (the atomic operations of the item are numbered through, pass and nested calls alike).  So every
+invariant above (`Reach`) and the refinement theorems below (`ReachR`) cover interrupts placed inside calls that a running
+fibre makes — in particular a wake-up for the running fibre itself followed by its own `fibre_run` of another fibre.  Thread senders are excluded on purpose:
 while a sender on another thread sits between its claim and its send, later entries are hidden behind its unsent buffer, so
 the liveness verdicts (`starved`, `oversleeps`, "settled") are not theorems for them (the monitor itself suspends those
 rules while a thread sender is in flight); for thread senders only the safety theorems above (`Reach`) are claimed.
@@ -372,14 +381,18 @@ theorem model_settles (d : Nat) (kinds : List Kind) (budgets : List Nat) (h1 : 1
     ∧ (runHistory (initWith d kinds budgets) (h ++ [.quiesce])).a.verdict = .ok := by
   have hg := good_runHistory d kinds budgets h1 h32 h hok
   have e : runHistory (initWith d kinds budgets) (h ++ [.quiesce])
-      = quiesceLoop 64 { ({ runHistory (initWith d kinds budgets) h with trace := [], fired := 0 } : S) with budget := fun _ => 0 } := by
+      = quiesceLoop 64 { ({ ({ runHistory (initWith d kinds budgets) h with trace := [], fired := 0 } : S) with budget := fun _ => 0 } : S)
+          with bscript := [], bret := .waiting } := by
     unfold runHistory
     rw [List.foldl_append]
     rfl
   rw [e] at hh hidle ⊢
-  have hg' : Good (kinds.length + 1) [] { ({ runHistory (initWith d kinds budgets) h with trace := [], fired := 0 } : S) with budget := fun _ => 0 } :=
-    good_main (s := { runHistory (initWith d kinds budgets) h with trace := [], fired := 0 })
-      (good_main hg rfl (fun hr _ => ReachR.newItem hr) rfl) rfl (fun hr _ => ReachR.noYields hr) rfl
+  have hg' : Good (kinds.length + 1) [] { ({ ({ runHistory (initWith d kinds budgets) h with trace := [], fired := 0 } : S) with budget := fun _ => 0 } : S)
+      with bscript := [], bret := .waiting } :=
+    good_main (s := { ({ runHistory (initWith d kinds budgets) h with trace := [], fired := 0 } : S) with budget := fun _ => 0 })
+      (good_main (s := { runHistory (initWith d kinds budgets) h with trace := [], fired := 0 })
+        (good_main hg rfl (fun hr _ => ReachR.newItem hr) rfl) rfl (fun hr _ => ReachR.noYields hr) rfl) rfl
+      (fun hr _ => ReachR.setBody [] .waiting (fun _ h => absurd h List.not_mem_nil) hr) rfl
   exact settled_of_passEnd (qi_quiesceLoop 63 _ hg') hh hidle
 
 /-- the same in the words of the correspondence run: `settled` -/
@@ -395,6 +408,22 @@ theorem model_settled_bool (d : Nat) (kinds : List Kind) (budgets : List Nat) (h
 example : (∀ it ∈ demo, ItemOk 4 it) ∧ (runHistory demoCfg (demo ++ [.quiesce])).hung = false
     ∧ (runHistory demoCfg (demo ++ [.quiesce])).dispatchedNow = false := by decide +kernel
 
+/-- the scenario of the seeded `handle_atomic_runq` mutant ("skip `make_runnable(*f)` if `*f` is the current fibre and the
+    *stale* `kernel.state` is YIELDED"): fibre 2 yields; the next pass dispatches the scripted fibre 1, an interrupt wakes
+    fibre 1 itself, then fibre 1 calls `fibre_run(3)` (whose drain loop moves the wake-up to the run queue) and returns
+    WAITING -/
+def bodyCfg : S := initWith 2 [.scripted, .yielder, .waiter] [0, 2, 0]
+def bodyDemo : List Item :=
+  [ .main { call := .run 2 }, .main { call := .run 1 }, .main { call := .next 10 },
+    .main { call := .next 11, body := [.run 3], script := [((2, false), { call := .runAtomic 1 })] } ]
+
+-- non-vacuity for scripted bodies: in scope, not cut; the wake-up for the running fibre survives its own `fibre_run(3)` —
+-- after the pass fibre 1 is owed a dispatch and is on the run queue (behind 2, which yielded, and 3)
+example : (∀ it ∈ bodyDemo, ItemOk 4 it) ∧ (runHistory bodyCfg bodyDemo).hung = false
+    ∧ (runHistory bodyCfg bodyDemo).a.owedFids = [1] ∧ (runHistory bodyCfg bodyDemo).k.runq = [2, 1, 3]
+    ∧ (runHistory bodyCfg (bodyDemo ++ [.quiesce])).a.settled = true
+    ∧ (runHistory bodyCfg (bodyDemo ++ [.quiesce])).dispatchedNow = false := by decide +kernel
+
 /-- **non-sticky form for handlers that run to completion**: in every state of an in-scope interrupt-only execution —
     also after a `fibre_eventq_send` has returned false or the handler has been killed and woken again — as long as an event
     whose send returned true (claimed since the handler was last killed) is unprocessed, the handler is owed a dispatch
@@ -405,6 +434,7 @@ theorem sent_event_keeps_handler_owed {n : Nat} {s : S} (hr : ReachR n s) (h : s
 
 -- dispatch_within_runq_passes: fibre 3 at position 2 of the run queue, three uninterrupted passes, not cut
 example : (runHistory demoCfg [.main { call := .run 1 }, .main { call := .run 2 }, .main { call := .run 3 }]).k.runq[2]? = some 3
+    ∧ (runHistory demoCfg [.main { call := .run 1 }, .main { call := .run 2 }, .main { call := .run 3 }]).bscript = []
     ∧ (passes [10, 10, 11] (runHistory demoCfg [.main { call := .run 1 }, .main { call := .run 2 }, .main { call := .run 3 }])).hung = false := by
   decide +kernel
 
